@@ -17,7 +17,7 @@ func init() {
 	register(&Property{
 		ID:      "C01",
 		NeedSSA: true,
-		Decided: "Narrow structural necessary conditions only: (tables) each entry of the encoding table, the compression codec table and the two level-encoding tables is the implementation whose identifying method/field equals its key, so the code stamped in a page header selects the same algorithm when read; (typepair) every Type implementation encodes with encoding.Encode<K>, decodes with encoding.Decode<K> and reports Kind() == K for one and the same K; (kinds) the dispatchers over the physical kind on the write and read side cover every kind or fail loudly; (wire) no call passes a struct field into the parameter named after a sibling field (e.g. repetition and definition level limits of a column buffer); (header) page header fields come from the matching accessors and sizes are measured at the right moment (C02.header); (sink) the destination writer is assigned and written only inside the offset-tracking wrapper, and every path of the writer's reset re-targets it through that wrapper, so a reused writer starts at offset 0; (fallback) the dictionary-to-PLAIN fallback never clears the dictionary that earlier pages refer to; (rows) values handed to WriteRowValues are aligned on rows (C11.rows). (lazybuffer) every store of a freshly made column buffer into a column writer is dominated by the nil edge of a test of that field. (chunkbase) a loop that walks a sparse array in chunks (Slice(i, j) with a loop-carried i) and indexes the whole array inside the loop uses an index that depends on i (8 sibling dictionary insert loops). (levelorder) wherever a function chooses exclusively between the repeated, optional and required form of a column (a test of a maxDefinitionLevel field on the not-repeated edge of a test of a maxRepetitionLevel field), the repetition test is not confined to the edge on which the definition level is zero — a repeated column always has a definition level, so such a test never selects the repeated form.",
+		Decided: "Narrow structural necessary conditions only: (tables) each entry of the encoding table, the compression codec table and the two level-encoding tables is the implementation whose identifying method/field equals its key, so the code stamped in a page header selects the same algorithm when read; (typepair) every Type implementation encodes with encoding.Encode<K>, decodes with encoding.Decode<K> and reports Kind() == K for one and the same K; (kinds) the dispatchers over the physical kind on the write and read side cover every kind or fail loudly; (wire) no call passes a struct field into the parameter named after a sibling field (e.g. repetition and definition level limits of a column buffer); (header) page header fields come from the matching accessors and sizes are measured at the right moment (C02.header); (sink) the destination writer is assigned and written only inside the offset-tracking wrapper, and every path of the writer's reset re-targets it through that wrapper, so a reused writer starts at offset 0; (fallback) the dictionary-to-PLAIN fallback never clears the dictionary that earlier pages refer to; (rows) values handed to WriteRowValues are aligned on rows (C11.rows). (lazybuffer) every store of a freshly made column buffer into a column writer is dominated by the nil edge of a test of that field. (chunkbase) a loop that walks a sparse array in chunks (Slice(i, j) with a loop-carried i) and indexes the whole array inside the loop uses an index that depends on i (8 sibling dictionary insert loops). (levelorder) wherever a function chooses exclusively between the repeated, optional and required form of a column (a test of a maxDefinitionLevel field on the not-repeated edge of a test of a maxRepetitionLevel field), the repetition test is not confined to the edge on which the definition level is zero — a repeated column always has a definition level, so such a test never selects the repeated form. (timeunit) in every function that asks for the duration of a time unit, no product with that duration reaches time.Unix or Time.Add: a stored count of milli- or microseconds is turned into a time.Time with the constructor of its unit, not through a count of nanoseconds that overflows beyond about 292 years.",
 		NotDecided: "equality of values, levels and nesting after a round trip; behaviour of encoders, compressors, page cutting arithmetic and row-group limits; null detection kernels (which rows of a batch are null) beyond their element width (C03.nullwidth).",
 		Assumptions: []string{"see DESIGN.md §4 C01: the property as a whole is outside static reach"},
 		Run:         runC01,
@@ -25,7 +25,7 @@ func init() {
 	register(&Property{
 		ID:      "C03",
 		NeedSSA: true,
-		Decided: "Narrow structural necessary conditions only: (nullwidth) every width-specific null scanner nullIndex<T> of the typed ingestion path scans elements of the width of T (it calls the kernel named after 8·sizeof(T) or the generic scanner instantiated with a type of that width), and the floating-point scanners never instantiate the generic scanner with a floating-point type (it would compare values, and -0.0 == 0, where reflect.Value.IsZero and the assembly kernels test bits), in every build configuration; (nullkinds) the reflection path decides `null` for pointer-like kinds (pointer, map, slice, interface) by IsNil, like the typed path's pointer test, never by length or zero-ness; (siblings) the entry points that shred through a shared implementation hand it the same set of level fields (composite literals passed to one callee set the same keys); (mapscratch) the map re-assembly clears its scratch element after each entry; (dispatch) the node-shape dispatchers of the typed, reflection and row paths test the same predicates (optional, repeated, list, map) in the same order. (appendalias) inside a loop, a slice built by appending to a base slice that is the same on every iteration (a parameter not always passed clipped, a field, a value computed before the loop) is not retained unless the base's capacity was clipped: retained slices would share the base's spare capacity. (accum) a recursive walk (schema tree, embedded structs) that adds to an integer parameter — column index, level, byte offset — passes, at every recursive call, an argument computed from that parameter (through arithmetic, conversions, calls that received it, maps filled with it, and the reaching definitions of local struct fields), so the running number is not restarted at a nested level. (stride) a typed write function that hands a column buffer's writeValues a scratch array of fixed-width integers reads the physical kind of the column's type in the function that builds it. (siblings, cont.) sibling call sites fill each literal field from the same source field. (loopfresh) a reflect scratch made by reflect.New outside a loop is not both refilled (Set) and handed, inside the loop, to a function that receives the [][]Value columns of a row being deconstructed.",
+		Decided: "Narrow structural necessary conditions only: (nullwidth) every width-specific null scanner nullIndex<T> of the typed ingestion path scans elements of the width of T (it calls the kernel named after 8·sizeof(T) or the generic scanner instantiated with a type of that width), and the floating-point scanners never instantiate the generic scanner with a floating-point type (it would compare values, and -0.0 == 0, where reflect.Value.IsZero and the assembly kernels test bits), in every build configuration; (nullkinds) the reflection path decides `null` for pointer-like kinds (pointer, map, slice, interface) by IsNil, like the typed path's pointer test, never by length or zero-ness; (siblings) the entry points that shred through a shared implementation hand it the same set of level fields (composite literals passed to one callee set the same keys); (mapscratch) the map re-assembly clears its scratch element after each entry; (dispatch) the node-shape dispatchers of the typed, reflection and row paths test the same predicates (optional, repeated, list, map) in the same order. (appendalias) inside a loop, a slice built by appending to a base slice that is the same on every iteration (a parameter not always passed clipped, a field, a value computed before the loop) is not retained unless the base's capacity was clipped: retained slices would share the base's spare capacity. (accum) a recursive walk (schema tree, embedded structs) that adds to an integer parameter — column index, level, byte offset — passes, at every recursive call, an argument computed from that parameter (through arithmetic, conversions, calls that received it, maps filled with it, and the reaching definitions of local struct fields), so the running number is not restarted at a nested level. (stride) a typed write function that hands a column buffer's writeValues a scratch array of fixed-width integers reads the physical kind of the column's type in the function that builds it. (siblings, cont.) sibling call sites fill each literal field from the same source field. (loopfresh) a reflect scratch made by reflect.New outside a loop is not both refilled (Set) and handed, inside the loop, to a function that receives the [][]Value columns of a row being deconstructed. (headercopy) in the typed dispatch writeRowsFuncOf, within the cases of reflect.String and reflect.Slice, every call of the direct-memory writer is unreachable from the FIXED_LEN_BYTE_ARRAY outcome of a test on the column's kind made in that case: a string or slice header is never copied as if it were the fixed-size value.",
 		NotDecided: "the level values themselves, null-bitmap scanning, batch boundaries, the amounts added to offsets and indexes, ordering of map keys — value-dependent.",
 		Assumptions: []string{"see DESIGN.md §4 C03"},
 		Run:         runC03,
@@ -126,6 +126,7 @@ func atoi(s string) int {
 func runC01(c *Ctx) {
 	runChunkBaseRule(c, "C01.chunkbase", 6)
 	runLevelOrderRule(c, "C01.levelorder", 4)
+	c01TimeUnit(c)
 	c01LazyBuffer(c)
 	p := c.P
 	runTableRule(c, "C01.tables", "encodings", "Encoding", 9)
@@ -194,6 +195,7 @@ func runC03(c *Ctx) {
 	c.Min("C03.accum", 15)
 	c03Stride(c)
 	runLoopFreshRule(c, "C03.loopfresh", 3)
+	c03HeaderCopy(c)
 	p := c.P
 	rule := "C03.nullwidth"
 	sizes := types.SizesFor("gc", c.P.Config.GOARCH)
